@@ -12,7 +12,7 @@ Definition spec_init : name -> option status :=
   fun k => if name_eqb k [] then Some Serving else None.
 Definition spec_step (m : name -> option status) (o : op) : name -> option status :=
   match o with
-  | SetS n v => fun k => if name_eqb k n then Some v else m k
+  | SetBy n v => fun k => if name_eqb k n then Some (setter_status v) else m k
   | Clear n => fun k => if name_eqb k n then None else m k
   | _ => m
   end.
@@ -22,14 +22,14 @@ Definition spec_map (h : list op) : name -> option status := fold_left spec_step
 Fixpoint sets_until_clear (n : name) (a : list op) : list status :=
   match a with
   | [] => []
-  | SetS m v :: a' => if name_eqb m n then v :: sets_until_clear n a' else sets_until_clear n a'
+  | SetBy m v :: a' => if name_eqb m n then setter_status v :: sets_until_clear n a' else sets_until_clear n a'
   | Clear m :: a' => if name_eqb m n then [] else sets_until_clear n a'
   | _ :: a' => sets_until_clear n a'
   end.
 (* the history of the channel a stream is attached to: status at subscription, then the sets *)
 Definition svc_hist (n : name) (v0 : status) (a : list op) : list status := v0 :: sets_until_clear n a.
 Definition is_clear (n : name) (o : op) : bool := match o with Clear m => name_eqb m n | _ => false end.
-Definition is_set (n : name) (o : op) : bool := match o with SetS m _ => name_eqb m n | _ => false end.
+Definition is_set (n : name) (o : op) : bool := match o with SetBy m _ => name_eqb m n | _ => false end.
 Definition is_next (w : nat) (o : op) : bool := match o with Next w' => Nat.eqb w' w | _ => false end.
 Definition cleared (n : name) (a : list op) : bool := existsb (is_clear n) a.
 Definition no_set (n : name) (a : list op) : bool := negb (existsb (is_set n) a).
@@ -328,7 +328,7 @@ Definition p_cl (p : part) : bool := snd p.
 
 Definition pstep (n : name) (w : nat) (p : part) (ox : op * out) : part :=
   match fst ox with
-  | SetS m v => if name_eqb m n && negb (p_cl p) then (p_seen p, p_unseen p ++ [v], p_cl p) else p
+  | SetBy m v => if name_eqb m n && negb (p_cl p) then (p_seen p, p_unseen p ++ [setter_status v], p_cl p) else p
   | Clear m => if name_eqb m n then (p_seen p, p_unseen p, true) else p
   | Next w' => if Nat.eqb w' w
                then match snd ox with OItem _ => (p_seen p ++ p_unseen p, [], p_cl p) | _ => p end
@@ -381,7 +381,7 @@ Qed.
 
 Definition untouched (s : state) (o : op) : Prop :=
   match o with
-  | SetS m _ | Clear m => lookup m (svcs s) <> Some id
+  | SetBy m _ | Clear m => lookup m (svcs s) <> Some id
   | Next w' => w' <> w
   | _ => True
   end.
@@ -479,12 +479,12 @@ Proof.
   assert (Lw : (w < length (watchers s))%nat) by (apply nth_error_Some; congruence).
   pose proof W as [H1 H2].
   destruct o as [m v|m|m|m|w'].
-  - (* SetS *)
+  - (* SetBy *)
     unfold pstep, rep_of. cbn [fst snd]. rewrite app_nil_r.
     destruct (name_eqb_spec m n) as [->|Hm]; destruct (p_cl p) eqn:Cl; cbn [andb negb].
     + eapply WI_frame; [exact HW|]. apply step_frame; auto. cbn. now apply Hu.
     + (* the stream's own service is updated *)
-      pose proof (wf_step s (SetS n v) W) as W'.
+      pose proof (wf_step s (SetBy n v) W) as W'.
       specialize (Hr eq_refl). cbn [step] in *. rewrite Hr in *.
       destruct (H1 _ _ Hr) as (_ & _ & Rx).
       destruct (Nat.eqb_spec (c_rx (get_chan s id)) 0) as [|_]; [lia|]. cbn [fst] in *.
@@ -596,7 +596,7 @@ Proof.
     destruct p as [[se un] cl]. unfold pstep, p_cl, p_seen, p_unseen. cbn [fst snd].
     destruct o as [m v|m|m|m|w']; cbn [is_next] in Ho; try (split; [reflexivity|now exists e]).
     + destruct (name_eqb m n && negb cl); cbn [fst snd]; (split; [reflexivity|]).
-      * exists ([v] ++ e). now rewrite app_assoc.
+      * exists ([setter_status v] ++ e). now rewrite app_assoc.
       * now exists e.
     + destruct (name_eqb m n); cbn [fst snd]; (split; [reflexivity|now exists e]).
     + destruct (Nat.eqb w' w); [discriminate|]. split; [reflexivity|now exists e].
@@ -668,13 +668,17 @@ Proof.
   now apply spec_fold_current.
 Qed.
 
-Lemma sets_until_clear_In n v a : In v (sets_until_clear n a) -> In (SetS n v) a.
+Lemma sets_until_clear_In n v a :
+  In v (sets_until_clear n a) -> exists k : setter, In (SetBy n k) a /\ setter_status k = v.
 Proof.
-  induction a as [|o a IH]; cbn [sets_until_clear In]; [auto|].
-  destruct o as [m x|m|m|m|w']; try (intros H; right; now apply IH).
-  - destruct (name_eqb_spec m n) as [->|]; [|intros H; right; now apply IH].
-    intros [->|H]; [now left | right; now apply IH].
-  - destruct (name_eqb m n); [intros []|intros H; right; now apply IH].
+  induction a as [|o a IH]; cbn [sets_until_clear In]; [intros []|].
+  assert (R : In v (sets_until_clear n a) ->
+              exists k : setter, (o = SetBy n k \/ In (SetBy n k) a) /\ setter_status k = v).
+  { intros H. destruct (IH H) as (k & Hk & E). exists k. auto. }
+  destruct o as [m x|m|m|m|w']; try exact R.
+  - destruct (name_eqb_spec m n) as [->|]; [|exact R].
+    intros [<-|H]; [exists x; auto | now apply R].
+  - destruct (name_eqb m n); [intros []|exact R].
 Qed.
 
 (* ------------------------------------------------------------------ subscription *)
@@ -797,7 +801,8 @@ Qed.
 
 Theorem watch_never_reports_foreign_status : forall h1 n w v0 h2 v,
   subscribed h1 n w v0 ->
-  In v (reports w (trace init (h1 ++ Watch n :: h2))) -> v = v0 \/ In (SetS n v) h2.
+  In v (reports w (trace init (h1 ++ Watch n :: h2))) ->
+  v = v0 \/ exists k : setter, In (SetBy n k) h2 /\ setter_status k = v.
 Proof.
   intros h1 n w v0 h2 v Sub Hi.
   apply (Subseq_In _ _ _ (watch_reports_are_subsequence _ _ _ _ h2 Sub)) in Hi.
@@ -856,7 +861,7 @@ Qed.
 Fixpoint unreported (n : name) (w : nat) (b : bool) (a : list op) : bool :=
   match a with
   | [] => b
-  | SetS m _ :: a' => unreported n w (b || name_eqb m n) a'
+  | SetBy m _ :: a' => unreported n w (b || name_eqb m n) a'
   | Next w' :: a' => unreported n w (b && negb (Nat.eqb w' w)) a'
   | _ :: a' => unreported n w b a'
   end.
